@@ -15121,7 +15121,10 @@ gcry_error_t CallasDonnerhackeFinneyShawThayerRFC4880::SymmetricDecryptAEAD
 			return gcry_error(GPG_ERR_TOO_SHORT); // error: input too short
 		}
 		size_t len = in.size() - taglen;
-		unsigned char inbuf[len], outbuf[len], tag[taglen];
+		// buffers on the heap: len follows the size of the (untrusted) input
+		tmcg_openpgp_octets_t inbuf_v(len + 1), outbuf_v(len + 1);
+		unsigned char *inbuf = &inbuf_v[0], *outbuf = &outbuf_v[0];
+		unsigned char tag[taglen];
 		if (verbose > 2)
 			std::cerr << "INFO: SymmetricDecryptAEAD in = " << std::hex;
 		for (size_t i = 0; i < len; i++)
@@ -15261,7 +15264,10 @@ gcry_error_t CallasDonnerhackeFinneyShawThayerRFC4880::SymmetricDecryptAEAD
 				gcry_cipher_close(hd);
 				return gcry_error(GPG_ERR_TOO_SHORT); // error: input too short
 			}
-			unsigned char inbuf[chunkdim], outbuf[chunkdim], tag[taglen];
+			// buffers on the heap: chunkdim follows the (untrusted) chunk size octet
+			tmcg_openpgp_octets_t inbuf_v(chunkdim), outbuf_v(chunkdim);
+			unsigned char *inbuf = &inbuf_v[0], *outbuf = &outbuf_v[0];
+			unsigned char tag[taglen];
 			for (uint64_t i = 0; i < chunkdim; i++)
 				inbuf[i] = in[nbytes+i];
 			for (size_t i = 0; i < taglen; i++)
@@ -15355,7 +15361,10 @@ gcry_error_t CallasDonnerhackeFinneyShawThayerRFC4880::SymmetricDecryptAEAD
 			std::cerr << "INFO: SymmetricDecryptAEAD len = " << len <<
 				std::endl;
 		}
-		unsigned char inbuf[len], outbuf[len], tag[taglen];
+		// buffers on the heap: len follows the size of the (untrusted) input
+		tmcg_openpgp_octets_t inbuf_v(len + 1), outbuf_v(len + 1);
+		unsigned char *inbuf = &inbuf_v[0], *outbuf = &outbuf_v[0];
+		unsigned char tag[taglen];
 		if (verbose > 2)
 			std::cerr << "INFO: SymmetricDecryptAEAD in = " << std::hex;
 		for (size_t i = 0; i < len; i++)
